@@ -21,6 +21,7 @@ import traceback
 
 VERIF = os.path.dirname(os.path.dirname(os.path.abspath(__file__)))
 NPROC = int(os.environ.get('VF_NPROC', '16'))
+OUT = os.environ.get('VF_OUT', VERIF)   # evidence/ and replays/ go here (mutant runs use a scratch dir)
 
 
 def _load_known():
@@ -53,8 +54,17 @@ def run_tasks(modname, tasks, nproc=None):
     if nproc <= 1 or len(tasks) <= 1:
         return [_worker((modname, t)) for t in tasks]
     ctx = mp.get_context('fork')
+    import importlib
+    cost = getattr(importlib.import_module(modname), 'task_cost', None)
+    order = list(range(len(tasks)))
+    if cost is not None:
+        order.sort(key=lambda i: -cost(tasks[i]))
     with ctx.Pool(min(nproc, len(tasks)), maxtasksperchild=200) as pool:
-        return pool.map(_worker, [(modname, t) for t in tasks], chunksize=1)
+        rs = pool.map(_worker, [(modname, tasks[i]) for i in order], chunksize=1)
+    out = [None] * len(tasks)
+    for i, r in zip(order, rs):
+        out[i] = r
+    return out
 
 
 def jsonable(x):
@@ -99,6 +109,9 @@ def main(mod, argv=None):
     t0 = time.time()
     tasks = mod.tasks(tier, seed)
     results = run_tasks(mod.__name__, tasks)
+    if os.environ.get('VF_DEBUG'):
+        for r in sorted(results, key=lambda r: -r['wall'])[:15]:
+            print('SLOW %.1fs unknown=%d %s' % (r['wall'], r.get('unknown', 0), json.dumps(jsonable(r['task']))[:400]), file=sys.stderr)
     errors = [r for r in results if r.get('error')]
     obligations = sum(r.get('obligations', 0) for r in results)
     discharged = sum(r.get('discharged', 0) for r in results)
@@ -150,7 +163,7 @@ def main(mod, argv=None):
         print('# %d distinct violation classes confirmed by replay; listing the first %d' % (len(violations), MAXV))
     for c, detail, n in violations[:MAXV]:
         h = hashlib.sha1(json.dumps(jsonable(c), sort_keys=True).encode()).hexdigest()[:12]
-        d = os.path.join(VERIF, 'replays', pid)
+        d = os.path.join(OUT, 'replays', pid)
         os.makedirs(d, exist_ok=True)
         path = os.path.join(d, h + '.json')
         with open(path, 'w') as f:
@@ -213,8 +226,8 @@ def main(mod, argv=None):
         'wall_s': round(wall, 2),
         'violations': len(violations),
     }
-    os.makedirs(os.path.join(VERIF, 'evidence'), exist_ok=True)
-    with open(os.path.join(VERIF, 'evidence', pid + '.json'), 'w') as f:
+    os.makedirs(os.path.join(OUT, 'evidence'), exist_ok=True)
+    with open(os.path.join(OUT, 'evidence', pid + '.json'), 'w') as f:
         json.dump(ev, f, indent=1)
     print('%s tier=%s seed=%d tasks=%d obligations=%d discharged=%d inconclusive=%d violations=%d known=%d wall=%.1fs'
           % (pid, tier, seed, len(tasks), obligations, discharged, unknown, len(violations), len(known_hits), wall))
